@@ -19,9 +19,22 @@ CONSTANTS Positions,   \* where TLS contexts can be configured
           Endpoints,   \* admin dump endpoints / parameters
           MaxOps,      \* length of the enumerated operation histories
           ArrayLen,    \* number of elements of the array-shaped positions
+          KeyForms,    \* textual forms a configured private_key can have (one per history)
           Defects      \* named ways for the redaction to go wrong
 
 ArrayPos == {"sfa", "exta"} \cap Positions
+Untyped  == {"ext", "sf", "sfa", "exta"}     \* found by key name in untyped configs; every other position is a typed TLSConfig
+
+(* The value of private_key.  MOSN's TLS code (mtls ConfigHooks.GetCertificate) takes a value as an inline key when it
+   CONTAINS "-----BEGIN", and the PEM decoder skips whatever precedes or follows the key block; anything else names a key
+   file.  All inline forms are secrets; a path is not (it may be shown or replaced).
+     pem        the PEM block alone                      lead_ws    white space / a newline before it
+     preamble   text before it (openssl pkcs12 -nodes: "Bag Attributes ...")
+     trailing   text after it                            crlf       CRLF line ends
+     two_blocks EC PARAMETERS + EC PRIVATE KEY (openssl ecparam -genkey)
+     path       the path of a key file *)
+Secret(f) == f # "path"
+StartsWithHeader(f) == f \in {"pem", "trailing", "crlf", "two_blocks"}
 
 (* one filter chain holds either a single context or a context set: configuring one replaces the other *)
 Excl(p) == CASE p = "lis_ctx" -> {"lis_set"} [] p = "lis_set" -> {"lis_ctx"} [] OTHER -> {}
@@ -45,13 +58,16 @@ VARIABLES stored,    \* slots holding a real key in the effective configuration 
           truth,     \* ghost: slots an operator configured a key at (never touched by dumps)
           leaked,    \* slots whose key appeared in the last response
           redacted,  \* number of placeholders in the last response
+          form,      \* the form of every key configured in this history
           hist
-vars == <<stored, truth, leaked, redacted, hist>>
+vars == <<stored, truth, leaked, redacted, form, hist>>
 
 (* slots the redactor reaches: all of them in the intended design *)
 Reached(st) ==
   { s \in st :
       /\ ~("UnwalkedExtends" \in Defects /\ s[1] \in {"ext", "exta"})
+      \* "inline" decided by how the value STARTS: a working inline key with something in front is taken for a path
+      /\ ~("PrefixOnlyInline" \in Defects /\ s[1] \notin Untyped /\ ~StartsWithHeader(form))
       \* an array whose LAST element has nothing to redact is handed back as it was
       /\ ~("ArrayLastOnly" \in Defects /\ s[1] \in ArrayPos /\ <<s[1], ArrayLen - 1>> \notin st) }
 
@@ -59,8 +75,9 @@ Init == /\ stored \in { {},
                         SlotsOf(Positions \ {"lis_set"}, Full),
                         SlotsOf(Positions \ {"lis_ctx"}, Full),
                         SlotsOf(Positions \ {"lis_set"}, FirstOnly) }   \* arrays: first element keyed, the rest plain
+        /\ form \in KeyForms
         /\ truth = stored /\ leaked = {} /\ redacted = 0
-        /\ hist = <<[op |-> "init", init |-> stored]>>
+        /\ hist = <<[op |-> "init", init |-> stored, form |-> form]>>
 
 (* positions with a modelled runtime update; any further position of the generated type graph (names "g:<path>",
    added by the check at run time) is placed through the initial file only *)
@@ -71,14 +88,14 @@ Replace(st, p, K) == { s \in st : s[1] \notin (Excl(p) \cup {p}) } \cup { <<p, i
 Place(p, K) == /\ p \in Runtime
                /\ stored' = Replace(stored, p, K)
                /\ truth' = Replace(truth, p, K)
-               /\ leaked' = {} /\ redacted' = 0
+               /\ leaked' = {} /\ redacted' = 0 /\ form' = form
                /\ hist' = Append(hist, [op |-> "place", p |-> p, k |-> K])
 
 Dump(e) == LET inView == { s \in stored : s[1] \in ViewOf(e) } IN
-           /\ leaked' = inView \ Reached(inView)
+           /\ leaked' = IF Secret(form) THEN inView \ Reached(inView) ELSE {}
            /\ redacted' = Cardinality(Reached(inView))
            /\ stored' = IF "RedactInPlace" \in Defects THEN stored \ Reached(inView) ELSE stored
-           /\ truth' = truth
+           /\ truth' = truth /\ form' = form
            /\ hist' = Append(hist, [op |-> "dump", e |-> e])
 
 Next == /\ Len(hist) <= MaxOps
@@ -91,5 +108,5 @@ NoLeak        == leaked = {}          \* per key: no slot's key in any response
 DumpIsPure    == stored = truth       \* TLS keeps working, the restart file keeps the real keys
 
 EmitCase == (Len(hist) = MaxOps + 1 /\ hist[MaxOps + 1].op = "dump") =>
-              PrintT(<<"CASE", ToJson([init |-> hist[1].init, ops |-> SubSeq(hist, 2, Len(hist))])>>)
+              PrintT(<<"CASE", ToJson([form |-> form, init |-> hist[1].init, ops |-> SubSeq(hist, 2, Len(hist))])>>)
 ====
